@@ -313,7 +313,7 @@ def gen_cases(kind, seed, n):
             for _ in range(2):
                 a, b = r2.pick(pairs)
                 ops.append(("add_edge", ((b, a) if r2.below(2) else (a, b)) + (1 + r2.below(3), None)))
-            ops += [("q", "alg_sssp", [x, 1, k % 5]) for k, x in enumerate(big[:3])] + [("q", "alg_cc", [1]), ("q", "alg_bc", [1])]
+            ops += [("q", "alg_sssp", [x, 1, k % 6]) for k, x in enumerate(big[:3])] + [("q", "alg_cc", [1]), ("q", "alg_bc", [1])]
             cases.append({"id": "h%d" % i, "spec": sp, "snap_each": True, "ops": ops, "wmode": wmode})
         elif kind == "c03" and i % 25 == 7:
             # weights that SUM to the number of edges without being 1 (halves of 1,1,3,3 through the dyadic scale)
@@ -321,7 +321,7 @@ def gen_cases(kind, seed, n):
             a, b, c_, d = names[:4]
             es = r2.shuffle([(a, b, 1, None), (b, c_, 1, None), (a, c_, 3, None), (c_, d, 3, None)])
             ops = [("add_nodes", [(x, None) for x in r2.shuffle([a, b, c_, d])]), ("add_edges", es)]
-            ops += [("q", "alg_sssp", [x, 1, k % 5]) for k, x in enumerate((a, b, c_, d))] + [("q", "alg_cc", [1]), ("q", "alg_bc", [1])]
+            ops += [("q", "alg_sssp", [x, 1, k % 6]) for k, x in enumerate((a, b, c_, d))] + [("q", "alg_cc", [1]), ("q", "alg_bc", [1])]
             cases.append({"id": "h%d" % i, "spec": sp, "snap_each": True, "ops": ops, "wmode": "real", "wscale": -1})
         elif kind == "c03":
             wmode = "nan" if r.below(4) == 0 else "real"
@@ -331,9 +331,11 @@ def gen_cases(kind, seed, n):
             # the consequence clause: what the algorithms report for the graph this history produced
             wf = 1 if wmode in ("real", "zero") else 0
             ops = ops + [("q", "alg_nbrs", [x]) for x in names]
-            ops = ops + [("q", "alg_sssp", [x, wf, (k + i) % 5]) for k, x in enumerate(names)]
+            ops = ops + [("q", "alg_sssp", [x, wf, (k + i) % 6]) for k, x in enumerate(names)]
+            ops = ops + [("q", "alg_sssp", [x, wf, 5]) for x in names[:3]]      # a target, distances only
             if wmode != "zero":     # closeness / betweenness are defined for positive weights
                 ops += [("q", "alg_cc", [wf]), ("q", "alg_bc", [wf])]
+            ops += [("q", "alg_ev", [wf])]
             cases.append(scaled({"id": "h%d" % i, "spec": sp, "snap_each": True, "ops": ops, "wmode": wmode}, wmode))
         elif kind == "c09":
             wmode = r.pick(["nan", "real", "real"])
@@ -341,6 +343,11 @@ def gen_cases(kind, seed, n):
             if wmode == "real" and r2.below(100) < 25:
                 # weights that cancel (negative and zero weights): a node whose adjacent weights sum to exactly 0
                 ops, wmode = resign(r2, ops), "signed"
+            if len(ops) >= 2 and r2.below(100) < 35:
+                # query, grow, query again: every degree map and count is asked in the MIDDLE of the history as well
+                # (an answer must describe the graph as it is now, not as it was when first asked)
+                k = 1 + r2.below(len(ops) - 1)
+                ops = ops[:k] + [("q", "counts", ()), ("q", "all_degrees", ())] + ops[k:]
             cases.append(scaled({"id": "h%d" % i, "spec": sp, "snap_each": False,
                                  "ops": ops + [("view",)] + degree_battery(r, names)}, wmode))
         elif kind == "c15":
@@ -369,6 +376,12 @@ def dup_in_batches(r2, ops):
             e = r2.pick(es)
             es.insert(r2.below(len(es) + 1), e)
             out.append((op[0], (op[1][0], es)))
+        elif op[0] == "add_edge_tuples" and op[1]:
+            ps = list(op[1])
+            k = r2.below(len(ps))
+            for _ in range(1 + r2.below(2)):
+                ps.insert(k, ps[k])         # the same tuple several times IN A ROW (parallel edges on a multigraph)
+            out.append((op[0], ps))
         else:
             out.append(op)
     return out
